@@ -9,6 +9,7 @@ import (
 	"fmt"
 	"hash/fnv"
 	"net/netip"
+	"os"
 	"path/filepath"
 	"reflect"
 	"sort"
@@ -101,7 +102,7 @@ func ratelimitVariant(i int) agd.Ratelimiter {
 		}, respSzEst)
 	default:
 		return agd.NewDefaultRatelimiter(&agd.RatelimitConfig{
-			ClientSubnets: []netip.Prefix{pfx("198.18.5.0/24"), pfx("2001:db8:c::/56")}, RPS: 4000000000, Enabled: true,
+			ClientSubnets: []netip.Prefix{pfx("198.18.5.0/24"), pfx("2001:db8:c::/56")}, RPS: 5000, Enabled: true,
 		}, respSzEst)
 	}
 }
@@ -597,7 +598,7 @@ func compareRecords(r *vkit.Run, prefix string, witness map[string]any, p1 *agd.
 		for k, v := range witness {
 			w[k] = v
 		}
-		r.Violation(prefix+fieldKey(d.Path), "a profile/device setting differs after the database was restarted from its cache file", w)
+		r.Violation(prefix+fieldKey(d.Path), fmt.Sprintf("%s differs after the database was restarted from its cache file: %s before the store, %s after the load", fieldKey(d.Path), d.A, d.B), w)
 	}
 	ndiff = len(c.diffs)
 	for t := range c.opaque {
@@ -619,7 +620,8 @@ func compareRecords(r *vkit.Run, prefix string, witness map[string]any, p1 *agd.
 					w[kk] = v
 				}
 				name := k[:strings.IndexByte(k, '(')]
-				r.Violation(prefix+"behaviour:"+name, "a setting behaves differently after the database was restarted from its cache file", w)
+				field := name[:strings.LastIndexByte(name, '.')]
+				r.Violation(prefix+field, fmt.Sprintf("%s behaves differently after the database was restarted from its cache file: %s gave %s before the store and %s after the load", field, k, b1[k], b2[k]), w)
 			}
 		}
 	}
@@ -726,6 +728,7 @@ func fieldFidelity(r *vkit.Run, dir string) {
 			profs = append(profs, buildProfile(ps))
 		}
 		cache := filepath.Join(dir, fmt.Sprintf("fields-%d.pb", b))
+		_ = os.Remove(cache)
 		resp := &profiledb.StorageProfilesResponse{SyncTime: encodeToken(basePast, b+1), Profiles: profs, Devices: devs}
 		st := &fixedStorage{resp: resp}
 		db1, err := newDB(st, cache, 0)
@@ -766,7 +769,7 @@ func fieldFidelity(r *vkit.Run, dir string) {
 				r.Violation("lookup:device-id:missing", "device of a full synchronisation is not found: "+err1.Error(), w)
 				continue
 			}
-			nd := compareRecords(r, "restart:field:", w, p1, d1, p2, d2, true)
+			nd := compareRecords(r, "restart:field:", w, p1, d1, p2, d2, b < 2)
 			r.Bucket("restart_field_cases", 1)
 			if nd == 0 {
 				r.Bucket("restart_field_cases_equal", 1)
